@@ -184,18 +184,31 @@ def build(m):
             ('implies(not is_none(result), delimiter_row_fullmatch(some(result)[0][1]))', ['C14', 'C03']),
             # C13: the recorded start line is the line of the header row
             'implies(not is_none(result), some(result)[1] == lines.start_line + old(lines._index) + 1)',
-            'implies(not is_none(result), lines._index == old(lines._index) + len(some(result)[0]))'],
+            'implies(not is_none(result), lines._index == old(lines._index) + len(some(result)[0]))',
+            # C03 / C14 (GFM): the rows are the lines read, and every row after the header - the delimiter row
+            # first of all - has a pipe: a line of dashes without one ends a paragraph as a setext underline does
+            ('implies(not is_none(result), forall(lambda i: some(result)[0][i] == lines.lines[old(lines._index) + 1 + i], '
+             '0, len(some(result)[0])))', ['C03', 'C14', 'C05']),
+            ("implies(not is_none(result), forall(lambda i: '|' in some(result)[0][i], 1, len(some(result)[0])))",
+             ['C03', 'C14'])],
         modifies=['lines._index'],
         body_types={'line_buffer': TList(STR)},
         loops={0: Loop(invariant=['CURSOR_OK(lines)', 'len(line_buffer) >= 1',
-                                  'lines._index == old(lines._index) + len(line_buffer)'],
+                                  'lines._index == old(lines._index) + len(line_buffer)',
+                                  'forall(lambda i: line_buffer[i] == lines.lines[old(lines._index) + 1 + i], 0, len(line_buffer))',
+                                  "forall(lambda i: '|' in line_buffer[i], 1, len(line_buffer))"],
                        decreases='len(lines.lines) - 1 - lines._index')},
         prop=P + ['C13']), classmethod_=True)
     method('Table', 'check_interrupts_paragraph', Contract(
         MOD + ':Table.check_interrupts_paragraph', [('cls', cls_t('Table')), ('lines', FW)],
         returns=None,
         requires=READER_REQ,
-        ensures=['lines._index == old(lines._index)', 'CURSOR_OK(lines)'],
+        ensures=['lines._index == old(lines._index)', 'CURSOR_OK(lines)',
+                 # C03 / C14: a paragraph is interrupted only by what Table.read accepts - a header line with a
+                 # pipe followed by a delimiter row that has one too
+                 ("implies(result, lines._index + 2 < len(lines.lines) and '|' in lines.lines[lines._index + 1] "
+                  "and '|' in lines.lines[lines._index + 2] and delimiter_row_fullmatch(lines.lines[lines._index + 2]))",
+                  ['C03', 'C14'])],
         modifies=['lines._index'], prop=P), classmethod_=True)
 
 
@@ -312,10 +325,10 @@ def build3(m):
             ('start_line == lines.start_line + old(lines._index) + 1', 'C13'),
             ('len(line_buffer) == lines._index - old(lines._index)', 'C13'),
             # C11/C04: the setext switch is restored to what it was
-            ('Paragraph.parse_setext == old(Paragraph.parse_setext)', ['C11', 'C03', 'C04']),
+            ('Paragraph.parse_setext == old(Paragraph.parse_setext)', ['C11', 'C03', 'C04', 'C14']),
         ],
         ensures_exc=['CURSOR_OK(lines)',
-                     ('Paragraph.parse_setext == old(Paragraph.parse_setext)', ['C11', 'C03', 'C04'])],
+                     ('Paragraph.parse_setext == old(Paragraph.parse_setext)', ['C11', 'C03', 'C04', 'C14'])],
         modifies=['lines._index', 'G:SCRATCH', 'G:FOOTNOTES', 'G:CodeFence._open_info',
                   'G:Paragraph.parse_setext',
                   'N:FileWrapper._index', 'N:FileWrapper.lines', 'N:FileWrapper.start_line',
@@ -612,7 +625,22 @@ def build8(m):
                  'implies(not is_none(result), some(result)[1] >= some(result)[0] + len(some(result)[2]))',
                  # LINES_NL: non-blank content of the marker line is a suffix of the line, terminator included
                  "implies(not is_none(result) and line.endswith('\\n') and some(result)[3].strip() != '', some(result)[3].endswith('\\n'))"]
-    c.prop = ['C01', 'C12', 'C09', 'C10', 'C13']
+    # C04 (list-indenting wraps the parse, marker line): on a tab-free line whose marker is followed by at most
+    # four blanks, the leader is the text at the indentation, the content offset is indentation + leader +
+    # padding, and the content handed to the item is the line with exactly that many characters removed
+    c.ensures = c.ensures + [
+        ("implies(not is_none(result) and not ('\\t' in line) and g_ns <= 4, "
+         "some(result)[1] == some(result)[0] + len(some(result)[2]) + g_ns and some(result)[1] <= len(line))", ['C04', 'C03']),
+        ("implies(not is_none(result) and not ('\\t' in line) and g_ns <= 4, "
+         "some(result)[3] == line[some(result)[1]:])", ['C04', 'C03']),
+        ("implies(not is_none(result), "
+         "some(result)[2] == line[some(result)[0]:some(result)[0] + len(some(result)[2])])", ['C04', 'C03']),
+        # more than four: one blank separates, the rest belongs to the content (an indented code block)
+        ("implies(not is_none(result) and not ('\\t' in line) and g_ns > 4, "
+         "some(result)[1] == some(result)[0] + len(some(result)[2]) + 1)", ['C04', 'C03'])]
+    c.ghost_init = {'g_ns': (INT, '0')}
+    c.ghost_after = {'n_spaces = prepend - match_obj.end(2)': [('g_ns', 'n_spaces')]}
+    c.prop = ['C01', 'C12', 'C09', 'C10', 'C13', 'C04', 'C03']
     c.options = dict(c.options or {}, blank_axiom=True)
     c.note = 'verified against the capture contract re:ListItem.pattern.match'
 
@@ -786,7 +814,10 @@ def build12(m):
         ensures=['implies(not is_none(result), offset <= some(result)[0] and some(result)[0] < some(result)[1] '
                  "and some(result)[1] <= len(string) and string[some(result)[1] - 1] == ']')",
                  # C07: a label starts at its opening bracket -- never before the offset
-                 ("implies(not is_none(result), string[some(result)[0]] == '[')", 'C07')],
+                 ("implies(not is_none(result), string[some(result)[0]] == '[')", 'C07'),
+                 # C09 / C07: the label is the text between the brackets, verbatim (escapes kept)
+                 ("implies(not is_none(result), some(result)[2] == string[some(result)[0] + 1:some(result)[1] - 1])",
+                  ['C09', 'C07'])],
         loops={0: Loop(invariant=['start == -1 or (offset <= start and start < offset + _k0)',
                                   "implies(start != -1, string[start] == '[')"])},
         prop=['C01', 'C07']), classmethod_=True)
@@ -795,7 +826,10 @@ def build12(m):
         returns=TOpt(SPAN3), pure=True,
         requires=['0 <= offset', 'offset < len(string)'],
         ensures=['implies(not is_none(result), some(result)[0] == offset and offset <= some(result)[1] '
-                 'and some(result)[1] <= len(string))'],
+                 'and some(result)[1] <= len(string))',
+                 # C09: the destination is the source spelling, verbatim (escapes kept; pointy brackets dropped)
+                 ("implies(not is_none(result), some(result)[2] == (string[offset + 1:some(result)[1] - 1] "
+                  "if string[offset] == '<' else string[offset:some(result)[1]]))", ['C09', 'C07'])],
         loops={0: Loop(invariant=[]), 1: Loop(invariant=[])},
         prop=['C01', 'C07']), classmethod_=True)
     method('Footnote', 'match_link_title', Contract(
@@ -803,13 +837,36 @@ def build12(m):
         returns=TOpt(SPAN3), pure=True,
         requires=['0 <= offset', 'offset <= len(string)'],
         ensures=['implies(not is_none(result), some(result)[0] == offset and offset < some(result)[1] '
-                 'and some(result)[1] <= len(string))'],
+                 'and some(result)[1] <= len(string))',
+                 # C09: the title is the text between the delimiters, verbatim
+                 ("implies(not is_none(result), some(result)[2] == string[offset + 1:some(result)[1] - 1])",
+                  ['C09', 'C07']),
+                 ("implies(not is_none(result), offset + 2 <= some(result)[1] and (string[offset] == '\"' or string[offset] == \"'\" "
+                  "or string[offset] == '('))", ['C09', 'C07'])],
         loops={0: Loop(invariant=[])},
         prop=['C01', 'C07']), classmethod_=True)
     mr = m.contracts[MOD + ':Footnote.match_reference']
     mr.trusted = False
     mr.note = 'verified: a recognised definition ends just after a line ending beyond the offset'
     mr.prop = ['C01', 'C07']
+    # C09: what a definition hands to the Markdown renderer (and to append_footnotes, which does the unescaping)
+    # is the source spelling: label, destination and title are slices of the scanned text
+    mr.ensures = mr.ensures + [
+        ("implies(not is_none(result), offset <= g_ls and g_ls + 2 <= g_le and g_le < g_ds and g_ds <= g_de "
+         "and g_de <= len(string) and some(result)[1][0] == string[g_ls + 1:g_le - 1])", ['C09', 'C07']),
+        ("implies(not is_none(result), some(result)[1][1] == (string[g_ds + 1:g_de - 1] "
+         "if some(result)[1][3] == 'angle_uri' else string[g_ds:g_de]))", ['C09', 'C07']),
+        ("implies(not is_none(result), some(result)[1][2] == '' or (g_de < g_ts and g_ts + 2 <= g_te and g_te <= len(string) "
+         "and some(result)[1][2] == string[g_ts + 1:g_te - 1]))", ['C09', 'C07']),
+        ("implies(not is_none(result), (some(result)[1][3] == 'angle_uri' or some(result)[1][3] == 'uri') and "
+         "(some(result)[1][3] == 'angle_uri') == (string[g_ds] == '<') and "
+         "implies(not is_none(some(result)[1][4]), some(some(result)[1][4]) == string[g_ts] and (string[g_ts] == '\"' or "
+         "string[g_ts] == \"'\" or string[g_ts] == '(')))", ['C09', 'C07'])]
+    mr.ghost_init = {'g_ls': (INT, '0'), 'g_le': (INT, '0'), 'g_ds': (INT, '0'), 'g_de': (INT, '0'),
+                     'g_ts': (INT, '0'), 'g_te': (INT, '0')}
+    mr.ghost_after = {'_, label_end, label = match_info': [('g_ls', 'some(match_info)[0]'), ('g_le', 'label_end')],
+                      '_, dest_end, dest = match_info': [('g_ds', 'dest_start'), ('g_de', 'dest_end')],
+                      '_, title_end, title = match_info': [('g_ts', 'title_start'), ('g_te', 'title_end')]}
     mr.loops = {0: Loop(invariant=['title_end <= line_end', 'line_end <= len(string)'], decreases='len(string) - line_end')}
     mr.body_types = {}
 
